@@ -490,6 +490,27 @@ def _proof_step(ctx, module, theorems, extra_targets=None):
     return True
 
 
+def run_model_lines(lines, jobs=8, timeout=3 * 3600):
+    """the model driver on the lines (every line is a self-contained case): contiguous chunks in parallel processes; the
+    outputs keep their positions (a chunk whose driver died is padded)"""
+    if len(lines) < 64:
+        return run_lines(driver_path(), lines, timeout=timeout)
+    from concurrent.futures import ThreadPoolExecutor
+    k = min(jobs, max(1, len(lines) // 32))
+    size = (len(lines) + k - 1) // k
+    chunks = [lines[i:i + size] for i in range(0, len(lines), size)]
+    with ThreadPoolExecutor(max_workers=k) as ex:
+        res = list(ex.map(lambda c: run_lines(driver_path(), c, timeout=timeout), chunks))
+    rc, out, err = 0, [], ''
+    for c, (rc_c, out_c, err_c) in zip(chunks, res):
+        if rc_c != 0 or len(out_c) != len(c):
+            rc = rc_c or -1
+            err = err or err_c
+            out_c = (out_c + ['<no output: driver died: %s>' % err_c[-300:]] * len(c))[:len(c)]
+        out.extend(out_c)
+    return rc, out, err
+
+
 def diff_streams(ctx, name, harness_exe, lines, describe=None, env=None, stall=90):
     """Run implementation and model on the same lines; record stats; returns
     (impl_out, model_out, mismatches[list of indices])."""
@@ -510,7 +531,7 @@ def diff_streams(ctx, name, harness_exe, lines, describe=None, env=None, stall=9
         impl.extend(more)
     ctx.died = getattr(ctx, 'died', {})
     ctx.died[name] = died
-    rc_m, model, err_m = run_lines(driver_path(), lines)
+    rc_m, model, err_m = run_model_lines(lines)
     st = ctx.streams.setdefault(name, {})
     st['cases'] = len(lines)
     st['impl_rc'] = rc_i
